@@ -7,4 +7,5 @@ cp /repo/Cargo.lock harness/Cargo.lock 2>/dev/null || true
 cargo build --release --offline --manifest-path harness/Cargo.toml --target-dir target/base
 cargo build --release --offline --manifest-path harness/Cargo.toml --target-dir target/nofast --features nofast
 cargo build --release --offline --manifest-path harness/Cargo.toml --target-dir target/instr --features instr
+(cd /repo && cargo build -p clvm_rs --release --offline --target-dir /verif/target/wheel)
 echo "setup ok"
